@@ -24,8 +24,30 @@ def _c09():
 	)
 
 
+def _c15():
+	from engines.dump import ENGINE
+	return ENGINE, dict(
+		level="fault_enumeration", runs_quick=3200, budget_quick_s=50,
+		rule="one case = one seeded history of append_msg/append_all/read/reopen operations on the real "
+			"DATADumpFile over a simulated disk, followed by crash cuts of the resulting byte stream: EVERY "
+			"byte offset when the history has few records (quick <= 5, thorough <= 12), otherwise all record "
+			"boundaries +/-3, all header-internal offsets and a seeded sample; each cut is reopened by a fresh "
+			"reader and compared with the list of completely written messages; distinct = distinct (record "
+			"shape sequence, operation sequence, cut mode); non-trivial = at least one record stored and at "
+			"least one crash cut examined. 'exhaustive' refers to nothing here: the history space is sampled",
+		assumptions=[
+			"record boundaries are measured by writing each message alone with the real writer (no layout assumed)",
+			"a crash leaves a prefix of the byte stream (no reordering of writes within the file)",
+			"SimFile models POSIX append/seek semantics; 5 % of histories are mirrored onto a real file",
+		],
+		real_stub={"real": ["data_dump.DATADumpFile/DATADump", "data_msg.TxMsg/RxMsg"],
+			"simulated": ["file system (SimDisk/SimFile)", "crash = truncation of the durable byte stream"]},
+	)
+
+
 REGISTRY = {
 	"C09": _c09,
+	"C15": _c15,
 }
 
 
